@@ -106,21 +106,38 @@ Vary1(B)     == B \cup UNION {{[b EXCEPT ![dm] = v] : v \in GoodVals[dm]} : b \i
 RECURSIVE BaseK(_)
 BaseK(k)     == IF k = 0 THEN {Default} ELSE Vary1(BaseK(k - 1))
 Defective(B) == UNION {{[b EXCEPT ![dm] = v] : v \in BadVals[dm]} : b \in B, dm \in DimSet}
+                \* a broken witness of the SECOND signer is one defect as well (the position is not a variation)
+                \cup {[b EXCEPT !.wval = v, !.wat = "2"] : b \in {x \in B : x.cos # "none"}, v \in BadVals.wval}
 
 Prod == {[Default EXCEPT !.wit = w, !.cos = o, !.attr = a, !.size = s, !.enc = e, !.d = dd] :
             w \in GoodVals.wit, o \in GoodVals.cos, a \in GoodVals.attr \ ({"notarysender"} \cup OracleOK),
             s \in GoodVals.size, e \in GoodVals.enc, dd \in {"0", "m1"}}
 
+\* valid combinations of two or three variations where fee accounting depends on both (always included)
+Extra == {[Default EXCEPT !.attr = a, !.cos = o, !.d = dd] :
+             a \in {"high", "conflicts", "conflicts2", "notary", "nvb"}, o \in {"sig", "ms23", "cver"}, dd \in {"0", "m1", "p1"}}
+         \cup {[Default EXCEPT !.wit = w, !.size = sz, !.d = dd] : w \in GoodVals.wit, sz \in {"mid", "max"}, dd \in {"0", "m1"}}
+         \cup {[Default EXCEPT !.wit = w, !.cos = o, !.d = dd] : w \in GoodVals.wit, o \in {"sig", "ms23", "cver"}, dd \in {"0", "m1"}}
+         \cup {[Default EXCEPT !.wit = w, !.enc = e] : w \in {"ms23", "cver"}, e \in GoodVals.enc}
+         \cup {[Default EXCEPT !.size = sz, !.enc = e, !.d = dd] : sz \in {"max", "over"}, e \in GoodVals.enc, dd \in {"0"}}
+         \cup {[Default EXCEPT !.bal = b, !.wit = w] : b \in {"exact", "short"}, w \in GoodVals.wit}
+
 BaseCells == {x \in BaseK(K) : Feasible(x)}
-Cases == IF Mode = "single" THEN BaseCells \cup {x \in Defective(BaseCells) : Feasible(x)}
+Cases == IF Mode = "single" THEN BaseCells \cup {x \in Defective(BaseCells) \cup Extra : Feasible(x)}
          ELSE IF Mode = "prod" THEN {x \in Prod : Feasible(x)}
          ELSE {x \in Defective(Defective(BaseCells)) : Feasible(x)}
 
 ----------------------------------------------------------------------------
 (* the facts of a cell (model values; the harness reads the real ones back from the built transaction) *)
-BadDims(x) == {dm \in DimSet : x[dm] \in BadVals[dm]}
+BadDims(x) == {dm \in DimSet : x[dm] \in BadVals[dm]}   \* (wat has no bad values)
 IsStd(x) == x.wit \in StdWit /\ x.cos \in StdWit \cup {"none"}
             /\ x.attr \notin {"notary", "notarysender", "notary_sender3"} \cup OracleOK \cup OracleBad
+\* encodings as long as the canonical one: the boolean byte, and the 3-byte length of a script of 253 bytes or more
+\* (which IS the minimal form then)
+\* and the 3-byte length of a four-signature invocation script (264 bytes)
+SameLen(x) == \/ x.enc \in {"canon", "boolbyte"}
+              \/ (x.enc = "scriptlen_fd" /\ x.size # "small")
+              \/ (x.enc = "invlen_fd" /\ x.wit = "ms44" /\ (x.wat = "2" \/ x.wval \notin {"fewsigs", "noinv", "hashmismatch"}))
 Facts(x) ==
     [form |-> x.form, script |-> x.script,
      vubrel |-> CASE x.vub = "expired" -> 0 [] x.vub = "lo" -> 1 [] x.vub = "mid" -> 10 [] x.vub = "hi" -> Inc [] x.vub = "far" -> Inc + 1,
@@ -133,7 +150,7 @@ Facts(x) ==
      baseslack |-> 100, std |-> IsStd(x),
      \* the fee slack of a cell is relative to the size the node RECEIVES; a non-minimal encoding is longer than
      \* the canonical one, so relative to the canonical size (the abstract threshold) there is room
-     slack |-> (IF x.enc = "canon" THEN 0 ELSE 1000) + (CASE x.d = "m1" -> -1 [] x.d = "0" -> 0 [] x.d = "p1" -> 1),
+     slack |-> (IF SameLen(x) THEN 0 ELSE 1000) + (CASE x.d = "m1" -> -1 [] x.d = "0" -> 0 [] x.d = "p1" -> 1),
      recvslack |-> CASE x.d = "m1" -> -1 [] x.d = "0" -> 0 [] x.d = "p1" -> 1,
      wval |-> x.wval,
      balslack |-> CASE x.bal = "ok" -> 1000 [] x.bal = "exact" -> 0 [] x.bal = "short" -> -1,
@@ -142,7 +159,7 @@ Facts(x) ==
 \* the defect names of the abstract level per dimension
 Intended(x) == {CASE dm = "vub" -> (IF x.vub = "expired" THEN "expired" ELSE "notyet")
                   [] dm = "chain" -> (IF x.chain = "dup" THEN "dup" ELSE "conflict")
-                  [] dm = "d" -> (IF IsStd(x) /\ x.enc = "canon" THEN "fee" ELSE "open")
+                  [] dm = "d" -> (IF IsStd(x) /\ SameLen(x) THEN "fee" ELSE "open")
                   [] OTHER -> DefectOf[dm] : dm \in BadDims(x)} \ {"open"}
 
 Init == c \in Cases
@@ -151,7 +168,7 @@ Spec == Init /\ [][Next]_c
 
 ConstructionMatchesAbstract == Defects(Facts(c)) = Intended(c)
 ImplMatchesAbstract == Outcome(Facts(c)) # "open" => ((ImplAdmit(Facts(c)) = "ok") <=> (Defects(Facts(c)) = {}))
-AtMostOne == Mode # "pairs" => Cardinality(BadDims(c)) <= 1
+AtMostOne == Mode # "pairs" => Cardinality(Defects(Facts(c))) <= 1
 
 Row == [cell |-> c, defects |-> Defects(Facts(c)), outcome |-> Outcome(Facts(c)), err |-> ImplAdmit(Facts(c)),
         std |-> IsStd(c), hashednc |-> c.enc \in HashedNc]
